@@ -302,3 +302,60 @@ pub unsafe extern "C" fn close(fd: c_int) -> c_int {
 pub fn raw_close(fd: i32) -> i32 {
     unsafe { libc::syscall(libc::SYS_close, fd) as i32 }
 }
+
+// ------------------------------------------------------------------ inotify
+//
+// With `fake_inotify(true)` an inotify instance is a duplicate of /dev/null and
+// watch descriptors are handed out 1, 2, ... per instance, as Linux does. The
+// reads of the instance are served by the simulated kernel anyway; only the
+// (slow: every close waits for an fsnotify work item) kernel object is left out.
+
+static FAKE_INOTIFY: std::sync::atomic::AtomicBool = std::sync::atomic::AtomicBool::new(false);
+static FAKE_INOTIFY_FDS: Mutex<Vec<(c_int, c_int)>> = Mutex::new(Vec::new());
+
+pub fn fake_inotify(on: bool) {
+    FAKE_INOTIFY.store(on, Ordering::SeqCst);
+    if !on {
+        crate::talloc::untracked(|| FAKE_INOTIFY_FDS.lock().unwrap_or_else(|e| e.into_inner()).clear());
+    }
+}
+
+#[unsafe(no_mangle)]
+pub unsafe extern "C" fn inotify_init1(flags: c_int) -> c_int {
+    CALLS.fetch_add(1, Ordering::Relaxed);
+    if !FAKE_INOTIFY.load(Ordering::SeqCst) {
+        return unsafe { libc::syscall(libc::SYS_inotify_init1, flags) as c_int };
+    }
+    let fd = unsafe {
+        let null = libc::open(c"/dev/null".as_ptr(), libc::O_RDONLY | libc::O_CLOEXEC);
+        if null < 0 {
+            return -1;
+        }
+        null
+    };
+    crate::talloc::untracked(|| {
+        let mut g = FAKE_INOTIFY_FDS.lock().unwrap_or_else(|e| e.into_inner());
+        // Descriptor numbers are reused: forget the instance that had this one before.
+        g.retain(|(f, _)| *f != fd);
+        g.push((fd, 0));
+    });
+    fd
+}
+
+#[unsafe(no_mangle)]
+pub unsafe extern "C" fn inotify_add_watch(fd: c_int, path: *const libc::c_char, mask: u32) -> c_int {
+    CALLS.fetch_add(1, Ordering::Relaxed);
+    if FAKE_INOTIFY.load(Ordering::SeqCst) {
+        let wd = crate::talloc::untracked(|| {
+            let mut g = FAKE_INOTIFY_FDS.lock().unwrap_or_else(|e| e.into_inner());
+            g.iter_mut().find(|(f, _)| *f == fd).map(|e| {
+                e.1 += 1;
+                e.1
+            })
+        });
+        if let Some(wd) = wd {
+            return wd;
+        }
+    }
+    unsafe { libc::syscall(libc::SYS_inotify_add_watch, fd, path, mask) as c_int }
+}
